@@ -1,6 +1,7 @@
 package harness
 
 import (
+	"encoding/hex"
 	"encoding/json"
 	"fmt"
 	"os"
@@ -31,6 +32,11 @@ func init() {
 	register(&Family{Name: "coversettle", Gen: genSettleHist, Run: runSettleHist})  // C04: the same histories, the dispute account covers what it owes
 	register(&Family{Name: "nohaltsettle", Gen: genSettleHist, Run: runSettleHist}) // C02: the same histories never stop the chain
 	register(&Family{Name: "framesettle", Gen: genSettleHist, Run: runSettleHist}) // C19: the same histories, pay-outs go to the party they are owed to
+	register(&Family{Name: "apphashsettle", Gen: func(r *Rng, i int, tier string) []string {
+		settleRich = true
+		defer func() { settleRich = false }()
+		return genSettleHist(r, i, tier)
+	}, Run: runAppHashSettle})
 	// C05: fees paid from stake against the model of FeefromReporterStake (mostly the directed variant, richer groups)
 	register(&Family{Name: "feestake", Gen: func(r *Rng, i int, tier string) []string {
 		settleRich = true
@@ -156,6 +162,69 @@ func dumpStoreOrder(c *Chain) string {
 		ds = append(ds, c.nameOf(da)+":"+c.valName(va))
 	}
 	return "O " + strings.Join(ss, ",") + "/" + strings.Join(ds, ",")
+}
+
+// settleChain builds the chain of a settlement history: validator count, optional validator cap and genesis tokens, a6 as team
+func settleChain(in []string) (*Chain, error) {
+	nv, _ := strconv.Atoi(in[0])
+	cfg := ChainCfg{NVals: nv, NAccts: 7}
+	if len(in) > 3 {
+		if m, err := strconv.Atoi(in[2]); err == nil && m > 0 {
+			cfg.MaxValidators = uint32(m)
+		}
+		for _, t := range strings.Split(in[3], ",") {
+			if v, err := strconv.ParseInt(t, 10, 64); err == nil {
+				cfg.ValTokens = append(cfg.ValTokens, v)
+			}
+		}
+	}
+	cfg.Mutate = func(c *Chain, gs map[string]json.RawMessage) {
+		dg := disputetypes.DefaultGenesis()
+		dg.Params.TeamAddress = c.Acct("a6").Addr
+		gs[disputetypes.ModuleName] = c.App.AppCodec().MustMarshalJSON(dg)
+	}
+	return NewChain(cfg)
+}
+
+// family "apphashsettle" (C01): the richer settlement histories (groups of selectors, fees paid from stake in several parts, rounds,
+// claims) executed three times on fresh chains: the application hash after every block must be the same in all executions
+func runAppHashSettle(t *testing.T, in []string) string {
+	run := func() ([]string, string) {
+		c, err := settleChain(in)
+		if err != nil {
+			return nil, "err:newchain"
+		}
+		defer c.Close()
+		h := NewHist(c)
+		var hashes []string
+		h.Observe = func(hh *Hist, br *BlockResult, pend []pendingTx) {
+			hashes = append(hashes, fmt.Sprintf("%d:%s:%s", br.Height, hex.EncodeToString(br.AppHash), strings.Join(txClasses(br, pend), ",")))
+		}
+		for _, op := range strings.Split(in[1], ";") {
+			h.Exec(op)
+			if c.Halted != "" {
+				break
+			}
+		}
+		return hashes, c.Halted
+	}
+	a, ha := run()
+	for k := 0; k < 2; k++ {
+		b, hb := run()
+		n := len(a)
+		if len(b) < n {
+			n = len(b)
+		}
+		for i := 0; i < n; i++ {
+			if a[i] != b[i] {
+				return fmt.Sprintf("differ at block %d: %s vs %s", i+1, a[i], b[i])
+			}
+		}
+		if len(a) != len(b) || ha != hb {
+			return fmt.Sprintf("differ: %d vs %d blocks, halted %q vs %q", len(a), len(b), ha, hb)
+		}
+	}
+	return fmt.Sprintf("equal blocks=%d", len(a))
 }
 
 func runSettleHist(t *testing.T, in []string) string {
